@@ -203,8 +203,10 @@ def run(ctx):
         finally:
             G.cleanup(wdir)
 
-    ctx.hyp(prop, G.batches(BATCH, rot), max_examples=nbatches,
-            shrink=False)
+    # VERIF_C24_PATH=default|psyir: development aid (sensitivity runs on one
+    # code path only); never set by the registered commands
+    ctx.hyp(prop, G.batches(BATCH, rot, os.environ.get("VERIF_C24_PATH")),
+            max_examples=nbatches, shrink=False)
     shutil.rmtree(shard_dir, ignore_errors=True)
 
 
